@@ -20,7 +20,11 @@ Inductive skind :=
 | KProcImport
 | KProcess       (* std::process::Command, open::that … *)
 | KWrapperCall   (* a call of a workspace fn that contains a KFsWrite site; arg = its first argument *)
-| KPathFn.       (* tail expression of a `self.helper(…)` that such a call passes as the path *)
+| KPathFn        (* tail expression of a `self.helper(…)` that such a call passes as the path *)
+| KLocal.        (* how a local variable that a path argument above mentions is computed inside that fn:
+                    api = "let x" / "let Some(x)" / "let (x,y)" with arg = the bound expression (every binding, shadowing
+                    included), api = "x.method" with arg = the arguments for a statement `x.method(…);` (in-place
+                    mutation, e.g. tmp_name.push(".tmp")), api = "x =" / "x +=" for assignments; transitive *)
 
 Record site := mksite {
   s_file : string;   (* path relative to /repo *)
@@ -35,7 +39,8 @@ Record site := mksite {
 Definition skind_eqb (a b : skind) : bool :=
   match a, b with
   | KNetImport, KNetImport | KNet, KNet | KFsImport, KFsImport | KFsWrite, KFsWrite
-  | KProcImport, KProcImport | KProcess, KProcess | KWrapperCall, KWrapperCall | KPathFn, KPathFn => true
+  | KProcImport, KProcImport | KProcess, KProcess | KWrapperCall, KWrapperCall | KPathFn, KPathFn
+  | KLocal, KLocal => true
   | _, _ => false
   end.
 
